@@ -53,7 +53,7 @@ fn content_strategy() -> impl Strategy<Value = NodeContent> {
         .prop_map(|(chunks, reg, txs, pad)| NodeContent { chunks, reg, txs, pad })
 }
 
-fn case_strategy() -> BoxedStrategy<Case> {
+pub fn case_strategy() -> BoxedStrategy<Case> {
     (proptest::collection::vec(content_strategy(), 2..=vh_core::depth(3, 4)), 2u8..=(vh_core::depth(4, 6) as u8), proptest::collection::vec(any::<u16>(), 0..vh_core::depth(60, 160)), prop_oneof![3 => Just(false), 1 => Just(true)], prop_oneof![5 => Just(false), 1 => Just(true)], prop_oneof![2 => Just(false), 1 => Just(true)])
         .prop_map(|(nodes, rounds, sched, stranger, far_known, ex_target)| Case { nodes, rounds, sched, stranger, far_known, ex_target })
         .boxed()
@@ -77,7 +77,7 @@ fn pad_of(counter: u8) -> Scratchpad {
     fix::scratchpad(OWNER + 1, 1, fix::pseudo_bytes(900 + counter as u64, 24), counter as u64, fix::Sig::Valid)
 }
 
-fn check(case: &Case, ctx: &mut Ctx) {
+pub fn check(case: &Case, ctx: &mut Ctx) {
     let n = case.nodes.len();
     let seeds: Vec<u64> = (0..n as u64).map(|i| 300 + i).collect();
     let mut cl = Cluster::new(&seeds, None);
@@ -402,7 +402,7 @@ pub struct ForcedCase {
     pub sched: Vec<u16>,
 }
 
-fn forced_strategy() -> BoxedStrategy<ForcedCase> {
+pub fn forced_strategy() -> BoxedStrategy<ForcedCase> {
     (content_strategy(), content_strategy(), proptest::collection::vec(any::<bool>(), 2..6), proptest::collection::vec(any::<u16>(), 0..40))
         .prop_map(|(a, b, fetches, sched)| ForcedCase { a, b, fetches, sched })
         .boxed()
@@ -412,7 +412,7 @@ fn forced_strategy() -> BoxedStrategy<ForcedCase> {
 /// neighbour's copy of every record the neighbour holds. After both directions have happened, the two
 /// stores must hold the same merged register / transaction set and the highest scratchpad, and
 /// byte-identical chunks.
-fn check_forced(case: &ForcedCase, ctx: &mut Ctx) {
+pub fn check_forced(case: &ForcedCase, ctx: &mut Ctx) {
     let mut cl = Cluster::new(&[310, 311], None);
     let ops = reg_ops();
     let base = fix::register_base(OWNER, META, Some(vec![]));
@@ -770,5 +770,7 @@ pub fn run(cfg: RunCfg) {
         "node 0 filled to its capacity (2..5 records) with a register / transaction set and chunks placed closer to it (or one beyond it), a farther record refused with MaxRecords, the neighbour holding another version of the mutable record; 2..3 replication rounds in generated delivery order. non-trivial: versions differ and the mutable record is node 0's farthest",
         full_strategy, check_full
     );
+    vh_core::fuzz_section!(rep, "cluster", case_strategy, check, "sec_node", "node", 2_500, 400, 12);
+    vh_core::fuzz_section!(rep, "forced_fetch", forced_strategy, check_forced, "sec_node", "node", 3_000, 240, 8);
     rep.finish();
 }
